@@ -272,7 +272,7 @@ impl Property for C14 {
         let mut end_used = [false; 2];
         for i in 0..n {
             if Some(i) == fail_at {
-                let id = *rng.pick(&[0u32, 1, 103, 105, 112, 114, 0x68_00, 0x8000_0068, 0xffff_ffff, 104 << 8]);
+                let id = *rng.pick(&[0u32, 1, 103, 105, 112, 114, 0x68_00, 0x8000_0068, 0xffff_ffff, 104 << 8, 0x1_0068, 0x1_0071, 0x168, 0x171, 0x6800_0000, 0x7100_0000, 0x0100_0068]);
                 blocks.push(Block::Syscall { id });
                 break;
             }
